@@ -15,8 +15,8 @@ open PonyVerif.Model.Tracked PonyVerif.Gen.TrackedTable
     an object that has a row and whose bit is not set has the value of the database, the database holds plain JSON,
     the attribute's write bit is only set on a 'modified' object -/
 def Inv (s : St) : Prop :=
-  allW s.doc = true ∧ (s.status ≠ .created → s.status.alive = true → s.dirty = false → s.db = ser s.doc) ∧ isPlain s.db = true
-    ∧ (s.dirty = true → s.status = .modified)
+  allW s.doc = true ∧ (s.status ≠ .created → s.status.alive = true → s.dirty = false → s.db = ser s.doc)
+    ∧ (isPlain s.db = true ∧ isPlain s.committed = true) ∧ (s.dirty = true → s.status = .modified)
 
 /-- the decidable guard of the partial theorems in readable form: the values stored by the operation contain no tuples and
     iterable arguments are of a kind that the method wraps (`list`, and `dict`/keyword arguments for `update`) -/
@@ -57,7 +57,7 @@ theorem assigned_allW (cfg : Cfg) (v : T) (hv : tupFree v = true ∨ rebindsAll 
 
 /-- loading: `dbval2val` = `make(json.loads(...))` gives a fully wrapped value, for every JSON document -/
 theorem C28_load_wrapped (cfg : Cfg) (v : T) (hv : isPlain v = true) (vol : Bool := false) : Inv (St.load cfg v vol) := by
-  refine ⟨?_, ?_, hv, ?_⟩
+  refine ⟨?_, ?_, ⟨hv, hv⟩, ?_⟩
   · exact make_allW_of_tupFree cfg v (isPlain_tupFree v hv)
   · intro _ _ _; exact (ser_make cfg v hv).symm
   · intro h; cases h
@@ -65,7 +65,7 @@ theorem C28_load_wrapped (cfg : Cfg) (v : T) (hv : isPlain v = true) (vol : Bool
 /-- a new object `E(attr=v)`: `validate` wraps the value (the object is 'created': no row, no write bits) -/
 theorem C28_create_wrapped (cfg : Cfg) (v : T) (hv : tupFree v = true ∨ rebindsAll cfg = true) (vol : Bool := false) :
     Inv (St.create cfg v vol) := by
-  refine ⟨?_, ?_, rfl, ?_⟩
+  refine ⟨?_, ?_, ⟨rfl, rfl⟩, ?_⟩
   · exact assigned_allW cfg v hv
   · intro h; exact absurd rfl h
   · intro h; cases h
@@ -231,7 +231,15 @@ theorem C28_inv_step (cfg : Cfg) (hc : cfg.covers = true) (s : St) (op : Op) (hs
       simp only [step]
       split
       · have hf := (doFlush_inv s hs')
-        exact ⟨hf.1.1, fun _ h => by simp [Status.alive] at h, hf.1.2.2.1, fun h => by simp [hf.2.2] at h⟩
+        exact ⟨hf.1.1, fun _ h => by simp [Status.alive] at h, ⟨hf.1.2.2.1.1, hf.1.2.2.1.1⟩, fun h => by simp [hf.2.2] at h⟩
+      · exact hs'
+  | commit =>
+      have hf := (doFlush_inv s hs')
+      exact ⟨hf.1.1, hf.1.2.1, ⟨hf.1.2.2.1.1, hf.1.2.2.1.1⟩, hf.1.2.2.2⟩
+  | rollback =>
+      simp only [step]
+      split
+      · exact ⟨h1, fun _ h => by simp [Status.alive] at h, ⟨h3.2, h3.2⟩, fun h => by simp at h⟩
       · exact hs'
   | delete =>
       simp only [step]
@@ -244,7 +252,7 @@ theorem C28_inv_step (cfg : Cfg) (hc : cfg.covers = true) (s : St) (op : Op) (hs
       · rename_i hv
         simp only [Bool.and_eq_true, Bool.not_eq_true', bne_iff_ne, ne_eq] at hv
         obtain ⟨⟨⟨⟨⟨_, hd⟩, _⟩, _⟩, hp⟩, _⟩ := hv
-        refine ⟨make_allW_of_tupFree cfg v (isPlain_tupFree v hp), fun _ _ _ => (ser_make cfg v hp).symm, hp, ?_⟩
+        refine ⟨make_allW_of_tupFree cfg v (isPlain_tupFree v hp), fun _ _ _ => (ser_make cfg v hp).symm, ⟨hp, h3.2⟩, ?_⟩
         intro h; simp [hd] at h
       · exact hs'
   | reload v =>
@@ -388,6 +396,27 @@ theorem C28_end_session (cfg : Cfg) (s : St) (hs : Inv s) (hal : s.status.alive 
   simp only [step, hal, if_true]
   exact ⟨hf.2.1 (by rw [ha.1]; exact hal), trivial⟩
 
+/-! ### flushed vs committed: commit and rollback -/
+
+/-- `commit()`: what every other transaction sees from now on is the value the session sees -/
+theorem C28_commit (cfg : Cfg) (s : St) (hs : Inv s) (hal : s.status.alive = true) :
+    (step cfg s .commit).1.committed = ser (step cfg s .commit).1.doc ∧ (step cfg s .commit).1.dirty = false := by
+  have hf := doFlush_inv s hs
+  have ha := doFlush_alive s
+  simp only [step]
+  exact ⟨hf.2.1 (by rw [ha.1]; exact hal), hf.2.2⟩
+
+/-- a flush alone changes nothing outside the transaction -/
+theorem C28_flush_not_committed (cfg : Cfg) (s : St) : (step cfg s .flush).1.committed = s.committed := by
+  simp only [step, doFlush]; split <;> rfl
+
+/-- `rollback()`: every change made in place since the last commit — flushed or not — is gone from the database, and the
+    session's objects are dead: the wrappers the program still holds are refused from now on (`C28_dead_refused`) -/
+theorem C28_rollback (cfg : Cfg) (s : St) (hal : s.status.alive = true) :
+    (step cfg s .rollback).1.db = s.committed ∧ (step cfg s .rollback).1.committed = s.committed
+      ∧ (step cfg s .rollback).1.status = .over := by
+  simp [step, hal]
+
 /-! ### arbitrary operation sequences -/
 
 theorem C28_inv_run (cfg : Cfg) (hc : cfg.covers = true) (ops : List Op) :
@@ -415,6 +444,20 @@ theorem C28_persist (cfg : Cfg) (hc : cfg.covers = true) (s0 : St) (h0 : Inv s0)
   rw [run_append]
   have hi := C28_inv_run cfg hc ops s0 h0 ha
   exact (doFlush_inv _ hi).2
+
+/-- operation sequences that end in a commit: the committed value is the value the session sees (guarded statement; the full
+    one follows from `C28_full_iff`, the last flush being the one of the commit) -/
+theorem C28_persist_committed (cfg : Cfg) (hc : cfg.covers = true) (s0 : St) (h0 : Inv s0) (ops : List Op)
+    (ha : ∀ op ∈ ops, op.argsW cfg = true) :
+    (run cfg (ops ++ [.commit]) s0).status.alive = true →
+      (run cfg (ops ++ [.commit]) s0).committed = ser (run cfg (ops ++ [.commit]) s0).doc := by
+  rw [run_append]
+  have hi := C28_inv_run cfg hc ops s0 h0 ha
+  intro hal
+  have hal' : (run cfg ops s0).status.alive = true := by
+    have := (doFlush_alive (run cfg ops s0)).1
+    simpa [run, step, this] using hal
+  exact (C28_commit cfg _ hi hal').1
 
 /-- ordinary JSON (dict / list / scalars handed in directly, in lists, dicts or keyword arguments): persisted, for the
     table generated from the current source -/
